@@ -20,6 +20,10 @@ func main() {
 		cmdRun(os.Args[2:])
 	case "check":
 		cmdCheck(os.Args[2:])
+	case "replay":
+		cmdReplay(os.Args[2:])
+	case "version":
+		fmt.Println("symgo (go/ssa symbolic executor) for /verif")
 	case "ssafacts":
 		cmdSSAFacts(os.Args[2:])
 	default:
